@@ -964,6 +964,7 @@ def oracle_rows(sch, data, q, only_needed=False):
 
 class C11(Check):
     pid = "C11"
+    props_modules = ["Verif.C11.Props", "Verif.C11.ComposeProps"]
     quick_cases = 1500
     thorough_cases = 20000
     rule = ("databases over item/run/parse/result with optional extra relations (output, fs with two shared keys, "
@@ -981,7 +982,11 @@ class C11(Check):
         "fragment stress texts; the parser model still receives token lists (generator-intended tokens for "
         "grammar cases, the real lexer's tokens for keyword-prefixed identifiers), and the lexeme-to-value steps "
         "int() and tsdb.cast(':date') stay parameters",
-        "tsdb.cast and int() are parameters of the model: cells and literals arrive with their cast values",
+        "tsdb.cast and int() are parameters of the join/condition model (cells and literals arrive with their "
+        "cast values) AND every select case is also run through the composition C11∘C08 (lean Compose.lean): "
+        "query text + raw cells + datatypes in, C08's model of tsdb.cast / int() / date parsing applied inside "
+        "Lean; 'unmodelled' answers of C08 (non-ASCII digits, unmatched date text, now/:today) are not compared "
+        "(evidence field composed_with_C08 counts compared vs unmodelled)",
         "re.search is a parameter of the model: its truth table on every (pattern, value) pair of the case is "
         "shipped with the request",
         "row order of joins over two or more relations is compared as a multiset when the join order depends on "
@@ -1151,6 +1156,28 @@ class C11(Check):
                                (["parse-id"], ["result"], [["leaf", ">=", "parse-id", {"i": -1}]]),
                                (["i-input", "r-comment", "mrs"], [], [])):
             yield self.make_case(rng, sch, d_key, {"proj": proj, "rels": rels, "wheres": wh}, plain=True)
+        # (d) the last-joined relation supplies only shared keys, on one-to-many data; unqualified shared
+        # keys without a disambiguating from clause where the relations hold different key multisets
+        # (unparsed item 20, item 10 parsed twice, dangling parse 40, parse 1 with three results)
+        d_many = {"item": [["10", "a", "1", None], ["20", "b", "2", None], ["30", "c", "3", None]],
+                  "run": [["1", "r", None]],
+                  "parse": [["1", "1", "10", "1", None], ["2", "1", "10", "2", None], ["3", "1", "30", "1", None],
+                            ["4", "1", "40", "0", None]],
+                  "result": [["1", "0", "m"], ["1", "1", "n"], ["1", "2", "o"], ["3", "0", "p"], ["9", "0", "x"]]}
+        for proj, rels in ((["i-input"], ["item", "result"]), (["parse-id", "readings"], ["parse", "result"]),
+                           (["i-input"], ["item", "parse"]), (["readings"], ["parse", "result"]),
+                           (["i-input", "readings"], ["item", "parse", "result"]), (["r-comment"], ["run", "parse"]),
+                           (["i-id"], []), (["parse-id"], []), (["run-id"], []), (["i-id", "readings"], []),
+                           (["parse-id", "mrs"], []), (["i-id", "parse-id"], []), (["i-id"], ["parse"]),
+                           (["parse-id"], ["result"]), (["i-id", "i-input"], []), (["parse-id", "i-input"], [])):
+            yield self.make_case(rng, sch, d_many, {"proj": proj, "rels": rels, "wheres": []}, plain=True)
+        # cells that C08's cast model leaves unmodelled (Python's int() accepts `1_0`; a date text no pattern
+        # matches): compared with the parametrised model only, the composition answers `unmodelled`
+        d_odd = {"item": [["1", "a", "1_0", "sometime"], ["2", "b", "10", "2020-01-01"]], "run": [], "parse": [],
+                 "result": []}
+        for wh in ([["leaf", "==", "i-length", {"i": 10}]], [["leaf", ">", "i-date", {"d": "2019-01-01"}]]):
+            yield self.make_case(rng, sch, d_odd, {"proj": ["i-id", "i-length", "i-date"], "rels": [], "wheres": wh},
+                                 plain=True)
         # (c) not / ! directly over every comparison, on rows whose compared field is empty
         for col, lit in (("i-length", {"i": 2}), ("i-date", {"d": "2020-01-15"}), ("i-input", {"s": "dog"})):
             for op in EQ_OPS + ([] if "s" in lit else ORD_OPS) + (RE_OPS if "s" in lit else []):
@@ -1438,6 +1465,10 @@ class C11(Check):
             for s in sorted(strings):
                 rx.append([cps(p), cps(s), re.search(p, s) is not None])
         r = {"op": "query", "toks": case["toks"] + [["DOT"]], "db": db, "rx": rx}
+        # C11 ∘ C08: the same case as query text + raw cells; the driver casts with C08's model
+        r["rawdb"] = [{"name": name, "fields": fields,
+                       "rows": [[None if v is None else cps(v) for v in row] for row in case["data"][name]]}
+                      for name, fields in sch]
         if "words" in case and all(x < 128 for w in case["words"] for x in w):
             r["words"] = case["words"]
         return r
@@ -1469,6 +1500,20 @@ class C11(Check):
             return {"what": "parse", "impl": expected["parse"], "model": answer.get("parse")}
         if case["kind"] != "select":
             return None
+        comp = answer.get("composed")
+        if comp is not None and "text" in case and lex_comparable(uncps(case["text"])):
+            unm = [k for k in ("parse", "rows")
+                   if isinstance(comp.get(k), dict) and comp[k].get("err") == "unmodelled"]
+            cc = self.__dict__.setdefault("_composed", {})
+            key = "compared" if not unm else "unmodelled-" + unm[0]
+            cc[key] = cc.get(key, 0) + 1
+            if not unm:
+                d = self.model_compare({"kind": "select", "q": case["q"], "text": case["text"]},
+                                       {"parse": expected["parse"], "rows": expected.get("rows")},
+                                       {"parse": comp.get("parse"), "rows": comp.get("rows")})
+                if d is not None:
+                    d["what"] = "composed (C11 with C08's cast, from text and raw cells): " + str(d.get("what"))
+                    return d
         if "words" in case and answer.get("spelled") is False:
             return {"what": "the generator's words are not spellings (spells/seqOKW) of the lexed tokens",
                     "text": uncps(case["text"])}
@@ -1610,6 +1655,9 @@ class C11(Check):
 
     def classify(self, case, failure):
         return None
+
+    def extra_evidence(self):
+        return {"composed_with_C08": dict(self.__dict__.get("_composed", {}))}
 
     def nontrivial_key(self, case, res):
         if case["kind"] == "session":
